@@ -9,6 +9,7 @@ From V Require Import Base.Int Base.IO Base.Utf8 Model.Scan Model.DateTime Model
   Spec.Gregorian Proofs.C08Sweeps Proofs.C04 Proofs.Utf8 Proofs.Scan Proofs.C11 Proofs.C11Scan Proofs.C11Resolve Proofs.C11Reader Proofs.C11Write Proofs.C11Roundtrip Proofs.C11RoundtripThm.
 From V Require Proofs.C14 Proofs.C13Safe.
 From V Require Import Proofs.C11Total.
+From V Require Import Spec.Rfc2822Lenient Proofs.C11Sound Proofs.C11ResolveInv Proofs.C11Exact Proofs.C11Holds.
 Import ListNotations.
 Open Scope Z_scope.
 
@@ -202,3 +203,112 @@ Example C11_parse_never_panics_inhabited :
   parse_from_rfc2822 (B"Tue, 1 Jul 2003 10:52:37 −0200") = Val (PErr Invalid).
 Proof. split; [vm_compute; reflexivity|]. split; [eexists; vm_compute; reflexivity|vm_compute; reflexivity]. Qed.
 Print Assumptions C11_parse_never_panics_inhabited.
+
+(* ---- READER EXACTNESS BEYOND THE GENERATOR GRAMMAR (Proofs/C11Inv.v, C11Sound.v, C11ResolveInv.v,
+   C11Exact.v).  [recognise_u] (Spec/Rfc2822Lenient.v) is the grammar of [recognise] -- same tokens,
+   same order, same fields, same meaning -- read with a run of Unicode White_Space characters
+   (what str::trim_start removes: SP HTAB LF VT FF CR NEL NBSP U+1680 U+2000-200A U+2028 U+2029
+   U+202F U+205F U+3000) wherever [recognise] has a run of folding white space. *)
+
+(* every string of the strict grammar is a string of the lenient one, with the same fields *)
+Theorem C11_strict_grammar_in_lenient : forall s f, utf8_valid s = true ->
+  recognise s = Some f -> recognise_u s = Some f.
+Proof. exact recognise_in_recognise_u. Qed.
+Print Assumptions C11_strict_grammar_in_lenient.
+
+(* reader soundness, scanning half, for EVERY well-formed string: whenever the scanner sequence
+   parse_rfc2822 and the TOO_LONG check succeed, the string is in the lenient grammar, the field
+   state is exactly the one its fields prescribe, and every field passed its setter's range check
+   (converse of C11_reader_scan_complete) *)
+Theorem C11_reader_scan_sound : forall s p, utf8_valid s = true -> blen s <= u64_max ->
+  parse_items_rfc2822 Parsed.parsed_new s = Val (POk p) ->
+  exists f, recognise_u s = Some f /\ p = parsed_of f /\ setter_ok f.
+Proof. exact scan_sound. Qed.
+Print Assumptions C11_reader_scan_sound.
+
+(* reader soundness, resolution half: Parsed::to_datetime on such a field state succeeds only for
+   fields that name an existing date-time, with a consistent day of week, representable *)
+Theorem C11_resolution_sound : forall f z, setter_ok f ->
+  Parsed.to_datetime (Proofs.C11Resolve.resolve_fields f) = Val (Parsed.Ok z) ->
+  valid f = true /\ weekday_ok f = true /\ representable f = true.
+Proof. intros f z H. exact (to_datetime_ok_inv f H z). Qed.
+Print Assumptions C11_resolution_sound.
+
+(* reader_sound: for EVERY valid UTF-8 string, if DateTime::parse_from_rfc2822 returns Ok(z) then
+   the string is a date-time of the (lenient-white-space) RFC 2822 grammar -- optional day of week,
+   optional seconds, comments, 2-/3-digit years, zone names, military letters included -- its
+   fields are valid, the day of week written (if any) is the date's, the value is representable,
+   and z is exactly the denoted instant and offset.  With C11_reader_complete (acceptance on the
+   strict grammar) and C11_strict_grammar_in_lenient this brackets the accepted language:
+     strict grammar & valid & consistent & representable  =>  accepted  =>  lenient grammar & valid & ...
+   The two grammars differ ONLY in the white-space class (C11_lenient_white_space_witness; the real
+   code accepts those strings too: corpus/C11/lenient_white_space.case).
+   Still open: acceptance of EVERY lenient-grammar string (the forward direction for [recognise_u],
+   i.e. C11_reader_scan_complete with [recognise_u] in place of [recognise]); it would turn the
+   bracket into a single iff over all strings. *)
+Theorem C11_reader_sound : forall s z, utf8_valid s = true -> blen s <= u64_max ->
+  parse_from_rfc2822 s = Val (POk z) ->
+  exists f, recognise_u s = Some f /\ valid f = true /\ weekday_ok f = true /\ representable f = true /\
+            enc_dtz z = enc5 (denote f).
+Proof. exact reader_sound. Qed.
+Print Assumptions C11_reader_sound.
+
+(* two-way on the strict grammar: a string of the grammar is accepted EXACTLY when its fields are
+   valid, the day of week consistent and the value representable (then with the denoted value:
+   C11_reader_complete); in every other case the result is an error value *)
+Theorem C11_reader_accepts_iff_on_grammar : forall s f, utf8_valid s = true -> blen s <= u64_max ->
+  recognise s = Some f ->
+  ((exists z, parse_from_rfc2822 s = Val (POk z)) <->
+   (valid f = true /\ weekday_ok f = true /\ representable f = true)).
+Proof. exact reader_accepts_iff_on_grammar. Qed.
+Print Assumptions C11_reader_accepts_iff_on_grammar.
+Theorem C11_reader_rejects_on_grammar : forall s f, utf8_valid s = true -> blen s <= u64_max ->
+  recognise s = Some f -> valid f && weekday_ok f && representable f = false ->
+  exists e, r2_parse s = VErr (perr_name e).
+Proof. exact reader_rejects_on_grammar. Qed.
+Print Assumptions C11_reader_rejects_on_grammar.
+Example C11_reader_rejects_inhabited :
+  recognise (B"30 Feb 2003 10:52 +0200") <> None /\ r2_parse (B"30 Feb 2003 10:52 +0200") = VErr (perr_name OutOfRange).
+Proof. split; [vm_compute; discriminate|vm_compute; reflexivity]. Qed.
+Print Assumptions C11_reader_rejects_inhabited.
+
+(* the exact set where the reader and the strict RFC grammar differ is not empty: a bare LF after
+   the comma and a no-break space before the time are read as white space *)
+Example C11_lenient_white_space_witness :
+  utf8_valid lenient_example = true /\ recognise lenient_example = None /\
+  (exists f, recognise_u lenient_example = Some f /\ valid f = true /\ weekday_ok f = true /\ representable f = true) /\
+  r2_parse lenient_example = VTup [VInt 2003; VInt 182; VInt 31957; VInt 0; VInt 7200].
+Proof. exact lenient_witness. Qed.
+Print Assumptions C11_lenient_white_space_witness.
+
+(* ---- the dispatcher and the judge *)
+Theorem C11_dispatch :
+  (forall s, run (B"r2.parse") [VStr s] = if utf8_valid s then r2_parse s else VBad) /\
+  (forall z, run (B"r2.write") [z] = match dec_dtz z with Some a => val_of_R VStr (to_rfc2822 a) | None => VBad end) /\
+  (forall z, run (B"r2.fmt") [z] = match dec_dtz z with Some a => val_of_R VStr (to_rfc2822 a) | None => VBad end) /\
+  (forall z, run (B"r2.rt") [z] = match dec_dtz z with Some a => r2_rt a | None => VBad end) /\
+  (forall op args, op_is op "r2.parse" = false -> op_is op "r2.write" = false -> op_is op "r2.fmt" = false ->
+     op_is op "r2.rt" = false -> run op args = VErr (B"NOOP")).
+Proof. exact Proofs.C11Holds.C11_dispatch. Qed.
+Print Assumptions C11_dispatch.
+
+(* the writer panics (documented) also when the wall-clock date leaves the range of dates *)
+Theorem C11_writer_panics_beyond_dates : forall y o d t off, repr y o d -> time_ok t -> -86400 < off < 86400 ->
+  dn_in_range (wall_dn y o (Time.tsecs t) off) = false ->
+  to_rfc2822 (mk_dtz (mk_ndt d t) off) = Panic.
+Proof. exact writer_panics_far. Qed.
+Print Assumptions C11_writer_panics_beyond_dates.
+
+(* C11_holds: for every op and every argument list (a string argument of a length a Rust string can
+   have) the judge of the check accepts the model's output whenever the case is in the property's
+   domain -- never JBad: r2.parse on every string (grammar strings: denoted value / error value as
+   the judge demands; other strings: never a crash), r2.write / r2.fmt / r2.rt on every date-time *)
+Theorem C11_holds : forall op args, args_len_ok args ->
+  Judge.C11.judge op args (run op args) <> JSkip -> Judge.C11.judge op args (run op args) = JOk.
+Proof. exact Proofs.C11Holds.C11_holds. Qed.
+Print Assumptions C11_holds.
+Example C11_holds_inhabited : args_len_ok [VStr (B"Fri, 13 Feb 1969 23:32:54 -0330")] /\
+  Judge.C11.judge (B"r2.parse") [VStr (B"Fri, 13 Feb 1969 23:32:54 -0330")]
+    (run (B"r2.parse") [VStr (B"Fri, 13 Feb 1969 23:32:54 -0330")]) = JOk.
+Proof. split; [vm_compute; discriminate|vm_compute; reflexivity]. Qed.
+Print Assumptions C11_holds_inhabited.
